@@ -19,7 +19,7 @@ RULE = ("all configurations of placed events up to the event bound: per file an 
 ASSUMPTIONS = ["configurations the statement leaves open are not generated: one name exported twice by the same file through two means, "
                "'.extern x' in a file that never defines x, local references inside .repeat, a file included twice",
                "values: x = 11*(file number) for assignments, label addresses from the fixed-size layout"]
-EV = ["D", "E", "L", "G", "X", "A", "U"]
+EV = ["D", "E", "L", "G", "X", "A", "U", "R"]   # R = an unrelated '.repeat 2 { nop }' (a nested block compiled inside the file)
 REG = ["first", "last", "none"]
 BASE = {"first": 0o2000, "last": 0o2000, "none": 0o1000}
 
@@ -53,7 +53,7 @@ def admissible(seq):
     exp_def = sum(1 for e in seq if e in "EG")
     if "X" in seq and priv == 0:
         return False        # .extern x for a name the file never defines privately
-    if seq.count("X") > 1 or seq.count("A") > 1:
+    if seq.count("X") > 1 or seq.count("A") > 1 or seq.count("R") > 1:
         return False
     if ("X" in seq or "A" in seq) and exp_def:
         return False        # the same name exported twice by one file through two means
@@ -125,6 +125,10 @@ def render(files, form, reg, include=False):
                 lines.append(".extern x")
             elif e == "A":
                 lines.append(".extern all")
+            elif e == "R":
+                lines.append(".repeat 2 { nop }")
+                use_slots.append(("raw", b"\xa0\x00\xa0\x00"))
+                addr += 4
             elif e == "U":
                 lines.append("mov #x, r0" if form == "eager" else ".word x")
                 use_slots.append((fi, addr))
@@ -151,6 +155,9 @@ def render(files, form, reg, include=False):
     image = b""
     per_file_idx = [0] * len(files)
     for slot in use_slots:
+        if slot[0] == "raw":
+            image += slot[1]
+            continue
         if slot[0] == "y":
             v = 0o100 + slot[1]
             image += bytes([v & 255, v >> 8])
